@@ -22,7 +22,7 @@ func init() {
 			ev.Class("op:" + op)
 		}
 		ev.Class("mode:" + p.Mode)
-		judge(rt, ev, oracleC04nsx, c, func() any { return c })
+		judge(rt, ev, oracles["C04/nsx"], c, func() any { return c })
 	})
 	addArm("C08", "nsx", func(rt *rapid.T, ev *evid.Collector) {
 		c := nsxCase("C08", nsxm.GenPair(rt, nsxm.GenOpts{}))
